@@ -372,3 +372,16 @@ PROPS['C10']['assumptions'] = [x.replace('Models.read (dispatch on the package v
 PROPS['C01']['explanation'] = PROPS['C01']['explanation'].replace('(Models.read assumed at that call site; its two readers are under contract in C02)', '(Models.read: hands its arguments to the reader of the package format; the two readers are under contract in C02)')
 PROPS['C14']['e1'] = PROPS['C14']['e1'] + [EXTN + 'to_table', EXTN + 'from_table']
 PROPS['C14']['explanation'] += ' to_table / from_table: the table round trip restores both fields (value and unit) for tables in micron/cgs and in Angstrom/SI.'
+
+
+# ---- SED.interpolate_variable under contract ---------------------------------------------------------------
+SIV = SEDC + 'interpolate_variable'
+PROPS['C13']['e1'] = PROPS['C13']['e1'] + [SIV]
+PROPS['C17']['e1'] = PROPS['C17']['e1'] + [SIV]
+PROPS['C13']['assumptions'] = [x for x in PROPS['C13']['assumptions'] if 'interpolate_variable' not in x] + [
+    'dep: log10 strictly increasing, 10**log10(t) = t, a chord of a linear interpolant lies between its end values (ground instances at the terms of each query)',
+    'interpolate_variable: scipy\'s ValueError for an intermediate aperture that leaves the table may propagate (a refusal); tables narrower than 0.1% (0.999 a_max < a_min) are excluded']
+PROPS['C13']['explanation'] = PROPS['C13']['explanation'].replace('E2: the same natively incl. interpolate_variable.',
+    'SED.interpolate_variable: at an SED wavelength that is one of the filter wavelengths -- in whatever order the filters are given -- the value is the flux of that wavelength interpolated linearly '
+    'in aperture to THAT filter\'s aperture (0.999 a_max beyond the table), refusal below the smallest aperture, the only row for a single-aperture SED. E2: the same natively.')
+PROPS['C17']['assumptions'] = [x.replace('(interp: interpolate_variable; smallest+largest; all; one figure per fit; per-file packages; files written)', '(interp -- whose helper interpolate_variable is under contract --, smallest+largest, all, one figure per fit, per-file packages, files written)') for x in PROPS['C17']['assumptions']]
